@@ -59,6 +59,15 @@ Theorem C24_deploy_status : forall b xs app entry (sel : names -> bool),
 Proof. exact status_built. Qed.
 Print Assumptions C24_deploy_status.
 
+(* WorkloadStatusStream(app, entry, node) on etcd watches exactly the status keys of the workloads
+   created under the (non-ignored) names *)
+Theorem C24_status_stream : forall xs app entry node (sel : names -> bool),
+  Forall good xs -> ok_or_empty app -> ok_or_empty entry -> ok_or_empty node ->
+  (forall x, sel x = true <-> under_names app entry node x) ->
+  stream_ids (map wl_of_names xs) app entry node = map nm_id (filter sel xs).
+Proof. exact stream_etcd. Qed.
+Print Assumptions C24_status_stream.
+
 (* the key-prefix test is exactly "created under those names" (the prefix-freeness lemma) *)
 Theorem C24_prefix_iff_names : forall app entry node x,
   ok_or_empty app -> ok_or_empty entry -> ok_or_empty node -> good x ->
